@@ -35,7 +35,9 @@ class _Cexptrk_Potential_Function(object):
 
   def __call__(self, *args):
     parameter_names = self._potential_form_tuple.signature.parameter_names
-    assert len(args) == len(parameter_names)
+    if len(args) != len(parameter_names):
+      raise Potential_Form_Exception("The potential-form '{}' takes {} argument(s) but {} were given".format(
+        self._potential_form_tuple.signature.label, len(parameter_names), len(args)))
     for (pn, v) in zip(parameter_names, args):
       self._local_symbol_table.variables[pn] = v
 
